@@ -28,7 +28,7 @@ func init() {
 	core.Register(&core.Spec{
 		ID:    "C13",
 		Level: "exploration",
-		Rule: "controlled executions of graph.InDependencyOrder on generated projects: every labelled DAG on <=4 services, every topologically ordered DAG on 5 (thorough: sampled on 6) x direction x max concurrency {0,1,2,3} x root selections x injected visitor errors. Mode A: hooks pass through and every order in which running visits can be released is enumerated depth-first (one visit released per global quiescence). Mode B: every internal yield point (ready, enter, done, spawned, receive) parks as well and seeded random / starvation strategies choose what moves next. All digraphs with a cycle on <=4 nodes must be refused before any visit. A run is non-trivial when >=2 visits happened or the graph was cyclic; distinct = distinct (configuration, recorded event trace).",
+		Rule:  "controlled executions of graph.InDependencyOrder on generated projects: every labelled DAG on <=4 services, every topologically ordered DAG on 5 (thorough: sampled on 6) x direction x max concurrency {0,1,2,3} x root selections x injected visitor errors. Mode A: hooks pass through and every order in which running visits can be released is enumerated depth-first (one visit released per global quiescence). Mode B: every internal yield point (ready, enter, done, spawned, receive) parks as well and seeded random / starvation strategies choose what moves next. All digraphs with a cycle on <=4 nodes must be refused before any visit. A run is non-trivial when >=2 visits happened or the graph was cyclic; distinct = distinct (configuration, recorded event trace).",
 		Assumptions: []string{
 			"events are recorded at the public visitor boundary under the monitor's own mutex; internal hook events only schedule, they never judge",
 			"quiescence = every goroutine other than the controller is blocked in a channel/sync wait state (runtime.Stack scan, confirmed twice); decided without clocks",
@@ -59,16 +59,18 @@ func init() {
 // RunSpec is one traversal configuration (JSON-serialisable for replay).
 type RunSpec struct {
 	N        int      `json:"n"`
-	Edges    [][2]int `json:"edges"` // [a,b]: service a depends_on service b
+	Edges    [][2]int `json:"edges"`                      // [a,b]: service a depends_on service b
 	Optional []int    `json:"optional_missing,omitempty"` // services carrying an optional dependency on an unknown service
-	Reverse  bool     `json:"reverse"`
-	Max      int      `json:"max"`
-	Roots    []int    `json:"roots,omitempty"`
-	Fail     []int    `json:"fail,omitempty"` // visits that return an error
-	Hooks    bool     `json:"hooks"`          // mode B
-	Strategy string   `json:"strategy,omitempty"`
-	Choices  []string `json:"choices,omitempty"` // replay: entity chosen at each step
-	RandSeed int64    `json:"rand_seed,omitempty"`
+	// services carrying an optional dependency on a service that exists but is disabled by profiles
+	OptionalDisabled []int    `json:"optional_disabled,omitempty"`
+	Reverse          bool     `json:"reverse"`
+	Max              int      `json:"max"`
+	Roots            []int    `json:"roots,omitempty"`
+	Fail             []int    `json:"fail,omitempty"` // visits that return an error
+	Hooks            bool     `json:"hooks"`          // mode B
+	Strategy         string   `json:"strategy,omitempty"`
+	Choices          []string `json:"choices,omitempty"` // replay: entity chosen at each step
+	RandSeed         int64    `json:"rand_seed,omitempty"`
 }
 
 func name(i int) string { return fmt.Sprintf("s%d", i) }
@@ -94,11 +96,20 @@ func (rs *RunSpec) project() *types.Project {
 		s.DependsOn["ghost"] = types.ServiceDependency{Condition: types.ServiceConditionStarted, Required: false}
 		p.Services[name(i)] = s
 	}
+	for _, i := range rs.OptionalDisabled {
+		s := p.Services[name(i)]
+		if s.DependsOn == nil {
+			s.DependsOn = types.DependsOnConfig{}
+		}
+		s.DependsOn["dz"] = types.ServiceDependency{Condition: types.ServiceConditionHealthy, Required: false}
+		p.Services[name(i)] = s
+		p.DisabledServices["dz"] = types.ServiceConfig{Name: "dz", Image: "img", Profiles: []string{"off"}}
+	}
 	return p
 }
 
 func (rs *RunSpec) key() string {
-	return fmt.Sprintf("n=%d e=%v opt=%v rev=%v max=%d roots=%v fail=%v hooks=%v/%s", rs.N, rs.Edges, rs.Optional, rs.Reverse, rs.Max, rs.Roots, rs.Fail, rs.Hooks, rs.Strategy)
+	return fmt.Sprintf("n=%d e=%v opt=%v rev=%v max=%d roots=%v fail=%v hooks=%v/%s", rs.N, rs.Edges, fmt.Sprint(rs.Optional, rs.OptionalDisabled), rs.Reverse, rs.Max, rs.Roots, rs.Fail, rs.Hooks, rs.Strategy)
 }
 
 // deps[a] = services a depends on; closure etc. computed independently of compose-go.
@@ -643,6 +654,9 @@ func run(s *core.Shard) {
 				}
 				for _, rev := range []bool{false, true} {
 					rs := &RunSpec{N: n, Edges: ee, Reverse: rev, Max: int(mask % 3)}
+					if mask%3 == 1 { // the refusal leaves the project alone, optional dependencies included
+						rs.Optional, rs.OptionalDisabled = []int{mask % n}, []int{(mask / 3) % n}
+					}
 					o := execute(rs, func(int, []*sched.Entity) int { return 0 })
 					s.Add("cyclic_graphs", 1)
 					r.report(rs, o)
@@ -686,9 +700,13 @@ func run(s *core.Shard) {
 						r.dfs(&RunSpec{N: f.n, Edges: es, Reverse: rev, Max: max, Roots: roots}, s.Pick(20, 120))
 					}
 					if s.Thorough() && f.n >= 2 {
-						// two failing visits, and an optional dependency on an unknown service
+						// two failing visits
 						r.dfs(&RunSpec{N: f.n, Edges: es, Reverse: rev, Max: max, Fail: []int{0, f.n - 1}}, 60)
-						r.dfs(&RunSpec{N: f.n, Edges: es, Reverse: rev, Max: max, Optional: []int{mask % f.n}}, 60)
+					}
+					if s.Thorough() || (mask+max)%3 == 0 {
+						// an optional dependency on an unknown service, on a service disabled by profiles, or both
+						r.dfs(&RunSpec{N: f.n, Edges: es, Reverse: rev, Max: max, Optional: []int{mask % f.n}}, s.Pick(12, 60))
+						r.dfs(&RunSpec{N: f.n, Edges: es, Reverse: rev, Max: max, OptionalDisabled: []int{(mask + 1) % f.n}, Optional: []int{mask % f.n}[:mask%2]}, s.Pick(12, 60))
 					}
 				}
 			}
@@ -724,6 +742,12 @@ func run(s *core.Shard) {
 					Max:      []int{0, 1, 2, 3}[rng.Intn(4)],
 					Strategy: strategies[rng.Intn(len(strategies))],
 					RandSeed: rng.Int63(),
+				}
+				if rng.Intn(4) == 0 {
+					rs.Optional = []int{rng.Intn(f.n)}
+				}
+				if rng.Intn(4) == 0 {
+					rs.OptionalDisabled = []int{rng.Intn(f.n)}
 				}
 				switch rng.Intn(4) {
 				case 0:
